@@ -83,6 +83,10 @@ pub struct Profile {
     /// probability of a storm case (wakers invoked concurrently from helper
     /// threads instead of by the scripted schedule)
     pub p_storm: u32,
+    /// probability (per leaf) of a script that starts with 240..570 Pending answers
+    pub p_long: u32,
+    /// probability (per flat combinator) that *all* children are of that kind
+    pub p_marathon: u32,
 }
 
 pub const ALL_FAMILIES: &[(Family, u32)] = &[
@@ -122,6 +126,8 @@ impl Profile {
             p_variant: 26,
             max_depth: 2,
             p_storm: 0,
+            p_long: 1,
+            p_marathon: 3,
         }
     }
     pub fn only(mut self, fams: &[Family]) -> Profile {
@@ -152,7 +158,7 @@ fn min_len(f: Family, c: Container) -> usize {
 const TUPLE_LENS: &[usize] = &[2, 1, 3, 2, 3, 4, 5, 6, 7, 8, 9, 10, 11, 12, 0, 4];
 const ARRAY_CHOICES: &[usize] = &[2, 1, 3, 2, 3, 4, 5, 6, 7, 8, 12, 16, 0, 4];
 const VEC_LENS: &[usize] = &[2, 1, 3, 2, 3, 4, 5, 6, 7, 8, 9, 10, 11, 12, 0, 4];
-const BIG_LENS: &[usize] = &[22, 23, 24, 63, 64, 65, 66, 100, 128, 129, 200, 255, 256, 257, 300];
+const BIG_LENS: &[usize] = &[22, 23, 24, 63, 64, 65, 66, 100, 128, 129, 200, 255, 256, 257, 300, 1025, 1100];
 
 pub fn gen_script(c: &mut Cur, p: &Profile, flavor: Flavor, nleaves_hint: usize) -> LeafSpec {
     let len = c.choice(p.max_script + 1);
@@ -178,6 +184,14 @@ pub fn gen_script(c: &mut Cur, p: &Profile, flavor: Flavor, nleaves_hint: usize)
     if flavor == Flavor::R && c.coin(p.p_err) {
         script.push(Step::Yield(false));
     }
+    // now and then a child that needs hundreds of wake-ups before it goes on
+    // (state that only goes wrong after ~2^8 polls of one combinator)
+    if c.coin(p.p_long) {
+        let k = 240 + c.choice(330);
+        let mut long = vec![Step::Later; k];
+        long.extend(script.drain(..));
+        script = long;
+    }
     if c.coin(p.p_never) {
         // becomes a never-completing child from some point on
         let at = c.choice(script.len() + 1);
@@ -186,7 +200,7 @@ pub fn gen_script(c: &mut Cur, p: &Profile, flavor: Flavor, nleaves_hint: usize)
     }
     // a stream that knows how many items it has left says so (adapters may
     // consult size_hint; it must never change what they do)
-    let hint = flavor == Flavor::S && c.coin(80);
+    let hint = if flavor == Flavor::S { c.weighted(&[(0u8, 170), (1, 52), (2, 34)]) } else { 0 };
     // some children notify from their destructor (a channel endpoint that wakes
     // its peer when dropped): "any waker ever handed out" may be invoked then
     let dropwake = c.coin(20);
@@ -229,6 +243,14 @@ fn gen_children(c: &mut Cur, p: &Profile, fam: Family, n: usize, depth: usize, n
             v[at] = ChildSpec::Leaf(gen_script(c, p, flavor, 24));
         }
         return v;
+    }
+    if n >= 1 && n <= 12 && depth == 0 && c.coin(p.p_marathon) {
+        // every child pends hundreds of times: the combinator itself is polled
+        // hundreds of times before anything resolves
+        let mut q = p.clone();
+        q.p_long = 256;
+        q.max_script = 3;
+        return (0..n).map(|_| ChildSpec::Leaf(gen_script(c, &q, flavor, n))).collect();
     }
     (0..n)
         .map(|_| {
@@ -361,8 +383,19 @@ pub fn gen_case(bytes: &[u8], p: &Profile) -> Case {
     // the type dimension (flat combinators only: every child a leaf)
     let flat = root.children.iter().all(|ch| matches!(ch, ChildSpec::Leaf(_)));
     if flat && matches!(root.family, Family::Join | Family::TryJoin | Family::Race | Family::RaceOk | Family::Merge | Family::Zip | Family::Chain) && c.coin(p.p_variant) {
-        let values_too = matches!(root.family, Family::Join | Family::TryJoin | Family::Zip);
-        root.variant = if values_too && c.coin(128) { 2 } else { 1 };
+        // 1 = children without drop glue, 2 = (Ok) values without drop glue,
+        // 3 = errors without drop glue (Ok values with), 4 = a heterogeneous
+        // tuple: element types with / without destructor, with a niche, wide
+        let hetero = root.container == Container::Tuple && root.children.len() >= 2;
+        let allowed: &[u8] = match (root.family, hetero) {
+            (Family::Join | Family::Zip, true) => &[1, 2, 4, 4],
+            (Family::Join | Family::Zip, false) => &[1, 2],
+            (Family::TryJoin, true) => &[1, 2, 3, 4, 4],
+            (Family::TryJoin, false) => &[1, 2, 3],
+            (Family::RaceOk, _) => &[1, 2, 3],
+            _ => &[1],
+        };
+        root.variant = allowed[c.choice(allowed.len())];
     }
     let mut fair_polls = 0u32;
     if p.fair {
@@ -373,7 +406,7 @@ pub fn gen_case(bytes: &[u8], p: &Profile) -> Case {
         for _ in 0..how_many {
             let d = c.choice(n);
             if let Some(ch) = root.children.get_mut(d) {
-                *ch = ChildSpec::Leaf(LeafSpec { script: vec![], always: true, hint: false, dropwake: false });
+                *ch = ChildSpec::Leaf(LeafSpec { script: vec![], always: true, hint: 0, dropwake: false });
             }
         }
         // mostly a few rounds; sometimes a long run (rotation state that only
@@ -398,6 +431,7 @@ pub fn gen_case(bytes: &[u8], p: &Profile) -> Case {
     let drain: Vec<u8> = (0..24).map(|_| c.byte()).collect();
     let post_polls = if c.coin(p.p_post) { 1 + c.choice(2) as u8 } else { 0 };
     let storm = !p.fair && c.coin(p.p_storm);
+    let unwind_drop = c.coin(128);
     Case {
         root,
         schedule,
@@ -406,5 +440,6 @@ pub fn gen_case(bytes: &[u8], p: &Profile) -> Case {
         fair_polls,
         post_polls,
         storm,
+        unwind_drop,
     }
 }
